@@ -36,6 +36,10 @@ type ServiceSpec struct {
 	Annotations Annotations
 
 	parentSrc *ast.ServiceReference
+
+	// linking is true while Link is resolving this service; reaching the
+	// service again during that time means it inherits from itself.
+	linking bool
 }
 
 func compileService(file string, src *ast.Service) (*ServiceSpec, error) {
@@ -115,8 +119,13 @@ func resolveService(src ast.ServiceReference, scope Scope) (*ServiceSpec, error)
 // Link resolves any references made by the given service.
 func (s *ServiceSpec) Link(scope Scope) error {
 	if s.linked() {
+		if s.linking {
+			return referenceCycleError{Kind: "service", Name: s.Name}
+		}
 		return nil
 	}
+	s.linking = true
+	defer func() { s.linking = false }()
 
 	if s.parentSrc != nil {
 		parent, err := resolveService(*s.parentSrc, scope)
